@@ -37,7 +37,7 @@ ASSUMPTIONS = [
     "numba, numpy, moptipy are trusted",
     "seeded search: a clean batch is evidence, not proof",
 ]
-FAULT_KINDS = ["decode_wrong_multiset", "scribble_dest:extreme", "scribble_dest:other_packing",
+FAULT_KINDS = ["same_name_other_instance", "decode_wrong_multiset", "scribble_dest:extreme", "scribble_dest:other_packing",
                "scribble_dest:blocking", "scribble_dest:random",
                "scribble_scratch:extreme", "scribble_scratch:inverted",
                "scribble_scratch:wide", "scribble_scratch:random",
@@ -96,7 +96,16 @@ def _gen_x(rng: random.Random, items: list, prev: list | None,
     return [v if rng.random() < 0.5 else -v for v in base], "fresh"
 
 
-def generate(rng: random.Random, batch: dict) -> dict:
+def generate(rng: random.Random, batch: dict, depth: int = 0) -> dict:
+    doc = _generate(rng, batch)
+    if depth == 0 and "resource" not in doc["inst"] and rng.random() < 0.12:
+        twin = _generate(rng, batch)
+        if "resource" not in twin["inst"]:
+            doc["twin"] = twin
+    return doc
+
+
+def _generate(rng: random.Random, batch: dict) -> dict:
     inst = packgen.gen_instance(rng, big=batch.get("big", False))
     items = packgen.resolve_items(inst)
     encoder = 1 if rng.random() < 0.4 else 2
@@ -110,7 +119,8 @@ def generate(rng: random.Random, batch: dict) -> dict:
     history: list = []
     faults = batch.get("faults", False)
     p_fault = rng.choice([0.15, 0.3, 0.5]) if faults else 0.0
-    enabled = [k for k in FAULT_KINDS if rng.random() < 0.7] if faults else []
+    enabled = [k for k in FAULT_KINDS if k != "same_name_other_instance"
+               and rng.random() < 0.7] if faults else []
     while len([o for o in ops if o["op"] == "decode"]) < n_ops:
         if enabled and rng.random() < p_fault:
             kind = rng.choice(enabled)
@@ -212,6 +222,30 @@ def _scribble_values(rnd: random.Random, kind: str, n: int, lo: int, hi: int,
 
 
 def execute(doc: dict) -> dict:
+    """Optionally followed by a twin: another instance with the SAME name,
+    its own encoder and destinations (nothing keyed by the name may leak)."""
+    name = packgen.scenario_name(doc)
+    res = _execute_one(doc, name)
+    twin = doc.get("twin")
+    if twin is not None and res["violation"] is None:
+        r2 = _execute_one(twin, name)
+        res["events"].append(["twin"])
+        res["events"].extend(r2["events"])
+        for key in ("faults", "probes"):
+            for k, v in r2[key].items():
+                res[key][k] = res[key].get(k, 0) + v
+        res["states"].extend(r2["states"])
+        res["ops"] += r2["ops"]
+        res["sim_time"] += r2["sim_time"]
+        res["nontrivial"] = res["nontrivial"] or r2["nontrivial"]
+        core.bump(res["faults"], "same_name_other_instance")
+        if r2["violation"] is not None:
+            res["violation"] = r2["violation"]
+            res["violation"]["in_twin"] = True
+    return res
+
+
+def _execute_one(doc: dict, name: str) -> dict:
     import numpy as np
     from moptipyapps.binpacking2d.encodings.ibl_encoding_1 import (
         ImprovedBottomLeftEncoding1)
@@ -220,7 +254,7 @@ def execute(doc: dict) -> dict:
     from moptipyapps.binpacking2d.packing_space import PackingSpace
 
     res = core.new_result()
-    inst = packgen.build_instance(doc["inst"], packgen.scenario_name(doc))
+    inst = packgen.build_instance(doc["inst"], name)
     W, H = int(inst.bin_width), int(inst.bin_height)
     items = [[int(v) for v in row] for row in inst]
     n_items = int(inst.n_items)
@@ -408,6 +442,10 @@ def execute(doc: dict) -> dict:
 # ------------------------------------------------------------------ shrinking
 
 def reductions(doc: dict):
+    if doc.get("twin") is not None:
+        yield {k: v for k, v in doc.items() if k != "twin"}
+        for cand in reductions(doc["twin"]):
+            yield {**doc, "twin": cand}
     ops = doc["ops"]
     # 1. drop operations
     for cand in core.list_deletions(ops, 1):
